@@ -110,6 +110,8 @@ func checkC17(e *Env) {
 	}
 	narrowingsGuarded(e, s, 65535, sizeLoop, "len(param:scts[rangeidx])")
 
+	loopAlias(e, "ALIAS", e.fns("signedexchange/certurl.ReadCertChain", "signedexchange/certurl.NewCertChain")...)
+	e.R.Floor("ALIAS", 1)
 	e.R.Floor("GATE", 14)
 	e.R.Floor("FORALL", 8)
 	e.R.Floor("COVER", 4)
